@@ -128,6 +128,9 @@ def system_part(ck):
                          f"the committed history of run {j['label']!r} cannot be read back ({r['history_unreadable']})" + (": what the caller wrote into returned objects is inside it" if j["scribble"] else ""),
                          {"job": j})
     traces = [r["trace"] for r in res]
+    # run() called a second time on the same sampler: the batches committed by the first call are still there (append-only across calls)
+    traces += sysrun.run_jobs([{"conf": dict(clustering=False, n_particles=8), "seed": 1790 + ck.seed, "label": "run-again (C17)", "n_total": 24, "rerun": 40},
+                               {"conf": dict(clustering=True, n_particles=8, evaluation="blobs"), "seed": 1791 + ck.seed, "label": "run-again blobs (C17)", "n_total": 24, "rerun": 16}])
     fails, st = psrun.validate(traces)
     cnt = sysrun.attribute(ck, "C17", traces, fails)
     P, meta = [], []
